@@ -218,10 +218,26 @@ Proof.
   apply (lex_injective _ _ ts He Hb Le El).
 Qed.
 
-(* consequences: an accepted script has exactly the size the library computes for the result,
-   and decoding is injective on accepted scripts *)
+(* script_size looks at the context only through pk_len, which is the same function in the three
+   non-Tap contexts (since /repo 8a94baa9) *)
+Lemma pk_len_cx c ke k : pk_len c ke k = pk_len (if is_tap c then Tap else Bare) ke k.
+Proof. destruct c; reflexivity. Qed.
+
+Lemma script_size_cx c ke : forall m, script_size c ke m = script_size (if is_tap c then Tap else Bare) ke m.
+Proof.
+  assert (Hmap : forall ks, map (pk_len c ke) ks = map (pk_len (if is_tap c then Tap else Bare) ke) ks).
+  { intros ks. apply map_ext. intros k. apply pk_len_cx. }
+  induction m using ms_ind2; cbn [script_size];
+    try reflexivity; try (rewrite ?IHm, ?IHm1, ?IHm2, ?IHm3; reflexivity);
+    try (rewrite Hmap; reflexivity).
+  - apply pk_len_cx.
+  - f_equal. induction H as [|x l Hx _ IHl]; [reflexivity|]. rewrite Hx, IHl. reflexivity.
+Qed.
+
+(* consequences: an accepted script has exactly the size the library computes for the result, in
+   the decoder's own context, and decoding is injective on accepted scripts *)
 Corollary decode_size e b m : denv_ok e -> ksort_ok (d_ke e) -> is_bytes b ->
-  decode_max e b = OOk m -> script_size (cx e) (d_ke e) m = blen b.
+  decode_max e b = OOk m -> script_size (d_ctx e) (d_ke e) m = blen b.
 Proof.
   intros Hok Hsort Hb H. pose proof (decode_canonical e b m Hok Hsort Hb H) as Hc.
   unfold decode_max in H.
@@ -232,7 +248,7 @@ Proof.
   destruct (lex_canonical b ts Hb El) as [Hu Htb].
   assert (Htw : Forall tok_wf ts) by (apply (Forall_impl _ tokb_wf Htb)).
   destruct (parse_canonical e ts m' Hok Htw Ep) as [Hts Hwf].
-  rewrite <- Hc. symmetry. apply (script_size_ok (cx e) (d_ke e) Hsort m' Hwf).
+  rewrite <- Hc. rewrite script_size_cx. symmetry. apply (script_size_ok (cx e) (d_ke e) Hsort m' Hwf).
 Qed.
 
 Corollary decode_injective e b1 b2 m : denv_ok e -> ksort_ok (d_ke e) -> is_bytes b1 -> is_bytes b2 ->
